@@ -494,6 +494,8 @@ def s_content(tier):
 def check_content(r, ctx):
     scene, p = r["scene"], r["params"]
     tb, te = p["tb"], p["te"]
+    if set(p["flags"]) - set(CONTENT_FREE) - set(CONTENT_OFF) or set(CONTENT_OFF) - set(p["flags"]):
+        ctx.discard("not-the-statement's-configuration")
     with warnings.catch_warnings():
         warnings.simplefilter("ignore")
         sc, pps = build_or_discard(scene, ctx)
@@ -548,16 +550,21 @@ def s_lanelets(tier):
     ids = st.one_of(id_mask(), id_mask(), st.just("all"))
     fam = [f for f in FLAGS if f.startswith("lanelet_network") and not f.endswith("fill_lanelet")
            and not f.endswith("draw_border_vertices")]
+    inter = ["lanelet_network.intersection.draw_intersections", "lanelet_network.intersection.draw_intersections",
+             "lanelet_network.intersection.draw_incoming_lanelets", "lanelet_network.intersection.draw_crossings"]
     params = st.fixed_dictionaries({
         "form": st.sampled_from(["mp", "renderer", "group", "standalone", "components-mp"]),
-        "win": window(), "flags": st.lists(st.sampled_from(fam), max_size=5, unique=True), "ll_ids": ids,
-        "window_first": st.booleans(),
+        "win": window(), "ll_ids": ids, "window_first": st.booleans(),
+        "flags": st.tuples(flag_sets(fam, 5), st.lists(st.sampled_from(inter), max_size=2, unique=True)).map(
+            lambda t: sorted(f for f in set(t[0]) | set(t[1]) if f in fam)),
     }).map(lambda d: dict(d, tb=d["win"][0], te=d["win"][1]))
     return st.fixed_dictionaries({"scene": rs.scene(max_lanelets=5, max_obstacles=0, pps=False), "params": params})
 
 
 def check_lanelets(r, ctx):
     scene, p = r["scene"], r["params"]
+    if "lanelet_network.lanelet.fill_lanelet" in p["flags"]:
+        ctx.discard("fill-switched-off")
     with warnings.catch_warnings():
         warnings.simplefilter("ignore")
         sc, pps = build_or_discard(scene, ctx)
@@ -732,7 +739,7 @@ FACETS = [
     Facet("obstacle-content", check_content, strategy=s_content, quick=150, thorough=6000, timeout_quick=900,
           rule="statement's configuration, exact states, <= 5 obstacles of all roles x windows; non-trivial = "
                "time_begin > 0 and >= 1 obstacle has and >= 1 lacks an occupancy there"),
-    Facet("lanelet-selection", check_lanelets, strategy=s_lanelets, quick=60, thorough=3000, timeout_quick=900,
+    Facet("lanelet-selection", check_lanelets, strategy=s_lanelets, quick=120, thorough=3000, timeout_quick=900,
           rule="1-5 lanelets x draw_ids (None / subsets / empty / foreign ids) x lanelet and intersection flags; "
                "non-trivial = proper non-empty subset selected"),
     Facet("propagation", check_propagation, strategy=s_propagation, quick=5000, thorough=100000,
